@@ -399,3 +399,98 @@ func (d *Def) SortedBranches() []Branch {
 	sort.SliceStable(bs, func(i, j int) bool { return bs[i].Index < bs[j].Index })
 	return bs
 }
+
+// EvalCPrecedence evaluates the printed form of e the way upstream Bebop (C operator
+// precedence, left associativity: shifts bind tighter than &, & tighter than |) reads it.
+func EvalCPrecedence(e *Expr, env map[string]*big.Int, bits int, unsigned bool) (*big.Int, bool) {
+	toks := strings.Fields(ExprText(e, " "))
+	// split parentheses glued to atoms
+	var ts []string
+	for _, t := range toks {
+		for strings.HasPrefix(t, "(") {
+			ts = append(ts, "(")
+			t = t[1:]
+		}
+		var tail []string
+		for strings.HasSuffix(t, ")") {
+			tail = append(tail, ")")
+			t = t[:len(t)-1]
+		}
+		if t != "" {
+			ts = append(ts, t)
+		}
+		ts = append(ts, tail...)
+	}
+	pos := 0
+	ok := true
+	prec := map[string]int{"|": 1, "&": 2, "<<": 3, ">>": 3}
+	var parseExpr func(minPrec int) *big.Int
+	parseAtom := func() *big.Int {
+		if pos >= len(ts) {
+			ok = false
+			return big.NewInt(0)
+		}
+		t := ts[pos]
+		pos++
+		if t == "(" {
+			v := parseExpr(1)
+			if pos < len(ts) && ts[pos] == ")" {
+				pos++
+			} else {
+				ok = false
+			}
+			return v
+		}
+		if v, isInt := ParseIntLit(t); isInt {
+			if !InRange(v, bits, unsigned) {
+				ok = false
+			}
+			return v
+		}
+		if v, have := env[t]; have {
+			return v
+		}
+		ok = false
+		return big.NewInt(0)
+	}
+	parseExpr = func(minPrec int) *big.Int {
+		lhs := parseAtom()
+		for ok && pos < len(ts) {
+			op := ts[pos]
+			p, isOp := prec[op]
+			if !isOp || p < minPrec {
+				break
+			}
+			pos++
+			rhs := parseExpr(p + 1)
+			if !ok {
+				break
+			}
+			switch op {
+			case "|":
+				lhs = new(big.Int).Or(lhs, rhs)
+			case "&":
+				lhs = new(big.Int).And(lhs, rhs)
+			case "<<", ">>":
+				if rhs.Sign() < 0 || rhs.Cmp(big.NewInt(int64(bits))) >= 0 {
+					ok = false
+					return lhs
+				}
+				if op == "<<" {
+					lhs = new(big.Int).Lsh(lhs, uint(rhs.Int64()))
+				} else {
+					lhs = new(big.Int).Rsh(lhs, uint(rhs.Int64()))
+				}
+			}
+			if !InRange(lhs, bits, unsigned) {
+				ok = false
+			}
+		}
+		return lhs
+	}
+	v := parseExpr(1)
+	if pos != len(ts) {
+		ok = false
+	}
+	return v, ok
+}
